@@ -359,7 +359,7 @@ def at_sign(at, *cs):
        covers=['html_renderer.py:HtmlRenderer.render_inline_code', 'html_renderer.py:HtmlRenderer.render_block_code'])
 def h2_code(c1: int, c2: int, c3: int, fenced: bool, dq: bool, sq: bool) -> bool:
     """
-    pre: all_ok(cp_ok, P('k'), c1, c2, c3) and fixed(fenced, 'fenced')
+    pre: fixed(fenced, 'fenced') and all_ok(cp_ok, P('k'), c1, c2, c3)
     post: _
     """
     r = _renderer(dq, sq)
@@ -415,7 +415,7 @@ def h2_blocks(c1: int, level: int, d1: int, d2: int, is_one: bool, ordered: bool
               align: int, header: bool) -> bool:
     """
     pre: cp_ok(c1) and 1 <= level <= 6 and 0 <= nkids <= P('maxkids', 2) and -1 <= align <= 1
-    pre: digit_cp(d1) and d2 == d1 and fixed(ordered, 'ordered') and fixed(loose, 'loose')
+    pre: fixed(ordered, 'ordered') and fixed(loose, 'loose') and digit_cp(d1) and d2 == d1
     post: _
     """
     kind = P('kind')
